@@ -152,7 +152,23 @@ def F_check(ctx, lib):
             if 0 in cmp_:
                 ctx.ob(rule, "stability_check.mismatch-always-false", p.end == "return" and strip(p.ret) == symx.vbool(False), where=b.where(),
                        expected="every path on which a position differs returns false", found=p.describe()[:260])
-        ctx.ob(rule, "stability_check.exits", seen == {"true", "false"}, where=b.where(), expected="true and false exits", found=sorted(seen))
+        if not seen:
+            # the iterator spelling of the same comparison: grd.iter().zip(interpretation.iter()).all(|(g, i)| g.compare_inf(i)) (either operand order; compare_inf is symmetric)
+            ret = flow.Defs(b).expr_local(0)
+            env = match(ret, C("all", C("zip", C("iter", V("L")), C("iter", V("R"))), CLOS("cmp")))
+            okz = False
+            if env is not None:
+                is_grd = lambda r: bool(flow.find(r, lambda n_: n_[0] == "call" and flow.sg(n_[1]).endswith("adf::Adf::grounded_internal")))
+                is_int = lambda r: match(r, P(2)) is not None
+                sides = (is_grd(env["L"]) and is_int(env["R"])) or (is_int(env["L"]) and is_grd(env["R"]))
+                cb = lib.body(env["cmp"])
+                cret = flow.closure_ret(lib, cb)
+                cmp_ok = match(cret, C("Term::compare_inf", F(P(2), "0"), F(P(2), "1"))) is not None or match(cret, C("Term::compare_inf", F(P(2), "1"), F(P(2), "0"))) is not None
+                okz = sides and cmp_ok and len([1 for bb_, t_ in cb.terminators() if t_["k"] == "return"]) == 1
+            ctx.ob(rule, "stability_check.false-iff-mismatch", okz, where=b.where(), expected="grounded_internal(reduct).iter().zip(interpretation.iter()).all(|(g, i)| g.compare_inf(i)), or the indexed loop",
+                   found=flow.show(ret)[:260])
+        else:
+            ctx.ob(rule, "stability_check.exits", seen == {"true", "false"}, where=b.where(), expected="true and false exits", found=sorted(seen))
     except LookupError as e:
         ctx.lost(rule, "stability_check", str(e))
     # ---- biodivine stable / stable_bdd_representation
